@@ -245,6 +245,9 @@ func checkC13(h History) Outcome {
 	if problem != nil {
 		return *problem
 	}
+	if d := Tbl().FreshTablesDiffer(); d != "" {
+		return fail("C13/table-aliasing", "what the library returns depends on what a caller did with a value it was handed earlier: %s", d)
+	}
 	return pass()
 }
 
